@@ -247,3 +247,79 @@ Proof.
   assert (Hgm : fc_gr m = fc_gr h) by (apply Hf; apply in_or_app; right; left; reflexivity).
   apply (numbered_same_path gs m h Hnd Nm Nh) in Hgm. apply Hu. rewrite Hgm. exact Hh.
 Qed.
+
+(* ---- what a nested literal is made of ---- *)
+(* converting INTO the counterpart, a member with a child path opens - for the next prefix p of its path - the literal
+   `[name:] <Type> { .. },` where <Type> (and the shape hint) is what the #[child_parents] instruction in effect gives for exactly
+   the path string p, name is the segment of the path at that depth, and the inside is struct_init_block_inner on the same members *)
+Theorem nested_literal_of_child : forall s c fuel cp members depth hint line ts rest,
+    is_intoish (c_kind c) = true ->
+    (match depth with None => true | Some d => Nat.ltb d (List.length (child_path_strs cp) - 1) end) = true ->
+    child_fragment s c (S (S fuel)) cp members depth hint line = Ok (ts, rest) ->
+    let nd := match depth with None => 0 | Some d => S d end in
+    exists cpa p cd name init,
+      sv_child_parents s = Some cpa /\ nth_error (child_path_strs cp) nd = Some p /\
+      find (fun x => String.eqb (cd_str x) p) (ca_data cpa) = Some cd /\
+      nth_error cp nd = Some name /\
+      init_inner s c fuel members (c_named c) (Some (cp, Some (cd_ty cd, cd_hint cd), nd)) = Ok (init, rest) /\
+      (ts = [member_tok name; P1 ":"] ++ cd_ty cd ++ init ++ [comma] \/ ts = cd_ty cd ++ init ++ [comma]).
+Proof.
+  intros s c fuel cp members depth hint line ts rest Hk Hd H nd. rewrite child_fragment_S in H. cbv zeta in H. rewrite Hd, Hk in H.
+  destruct (sv_child_parents s) as [cpa|]; [|discriminate H]. unfold nth_str in H. fold nd in H.
+  destruct (nth_error (child_path_strs cp) nd) as [p|] eqn:Ep; cbn [bind] in H; [|discriminate H].
+  destruct (find _ (ca_data cpa)) as [cd|] eqn:Ef; [|discriminate H].
+  rewrite render_child_S in H. destruct (nth_error cp nd) as [name|] eqn:En; [|discriminate H].
+  destruct (init_inner s c fuel members (c_named c) _) as [[init rest0]| | |] eqn:Ei; cbn [bind] in H; try discriminate H.
+  cbv zeta in H. cbn [fst] in H.
+  exists cpa, p, cd, name, init.
+  destruct (c_named c); destruct hint; try discriminate H; injection H as <- <-;
+    (repeat split; try reflexivity; try assumption; first [left; reflexivity | right; reflexivity]).
+Qed.
+
+(* converting FROM the counterpart, a parameterised #[parent(..)] member opens the literal with the type written next to the nested
+   member (or the field's own type at the top), always in the shape of the enclosing struct *)
+Theorem nested_literal_of_parent : forall s c fuel f p members named depth line ts rest,
+    is_from (c_kind c) = true ->
+    (match depth with None => true | Some d => Nat.ltb d (List.length (pc_sub p)) end) = true ->
+    parent_child_fragment s c (S (S fuel)) f p members named depth line = Ok (ts, rest) ->
+    let nd := match depth with None => 0 | Some d => S d end in
+    let cp := fv_member f :: map fst (pc_sub p) in
+    exists ty name init,
+      (match depth with
+       | Some d => exists m, nth_error (pc_sub p) d = Some (m, Some ty)
+       | None => fv_ty f = Some ty
+       end) /\
+      nth_error cp nd = Some name /\
+      init_inner s c fuel members named (Some (cp, Some (ty, c_hint c), nd)) = Ok (init, rest) /\
+      ts = (if c_named c then [member_tok name; P1 ":"] else []) ++ ty ++ init ++ [comma].
+Proof.
+  intros s c fuel f p members named depth line ts rest Hk Hd H nd cp. rewrite parent_child_fragment_S in H. cbv zeta in H. rewrite Hd, Hk in H.
+  fold nd in H. fold cp in H.
+  assert (Hty : exists ty, (match depth with
+                            | Some d => match nth_error (pc_sub p) d with Some (_, Some t) => Ok t | Some (_, None) => Panic "sub_path-type-unwrap" | None => Panic "sub_path-index" end
+                            | None => match fv_ty f with Some t => Ok t | None => Panic "field-ty-unwrap" end
+                            end) = Ok ty /\
+                           (match depth with Some d => exists m, nth_error (pc_sub p) d = Some (m, Some ty) | None => fv_ty f = Some ty end)).
+  { destruct depth as [d|].
+    - destruct (nth_error (pc_sub p) d) as [[m [t|]]|] eqn:E; cbn [bind] in H; try discriminate H. exists t. split; [reflexivity | exists m; reflexivity].
+    - destruct (fv_ty f) as [t|] eqn:E; cbn [bind] in H; try discriminate H. exists t. split; reflexivity. }
+  destruct Hty as [ty [Ety Hspec]]. rewrite Ety in H. cbn [bind] in H.
+  rewrite render_child_S in H. destruct (nth_error cp nd) as [name|] eqn:En; [|discriminate H].
+  destruct (init_inner s c fuel members named _) as [[init rest0]| | |] eqn:Ei; cbn [bind] in H; try discriminate H.
+  cbv zeta in H. cbn [fst] in H. exists ty, name, init.
+  destruct (c_named c); injection H as <- <-; repeat split; try assumption; reflexivity.
+Qed.
+
+(* converting into an EXISTING counterpart nothing is constructed: the same descent produces the inner assignments only *)
+Theorem existing_descends_without_literal : forall s c fuel cp members depth hint line,
+    is_into_existing (c_kind c) = true ->
+    (match depth with None => true | Some d => Nat.ltb d (List.length (child_path_strs cp) - 1) end) = true ->
+    let nd := match depth with None => 0 | Some d => S d end in
+    child_fragment s c (S fuel) cp members depth hint line =
+    (p <- nth_str (child_path_strs cp) nd ;;
+     init_inner s c fuel members (c_named c)
+       (Some (cp, option_map (fun x => (cd_ty x, cd_hint x)) (find_child_data (sv_child_parents s) p), nd))).
+Proof.
+  intros s c fuel cp members depth hint line Hk Hd nd. rewrite child_fragment_S. cbv zeta. rewrite Hd.
+  assert (F : is_intoish (c_kind c) = false) by (destruct (c_kind c); cbn in Hk |- *; congruence). rewrite F, Hk. reflexivity.
+Qed.
